@@ -10,6 +10,7 @@ CONSTANTS
   Pass2Cancel = "fresh"
   Outermost = "flush"
   PropagateDespiteCycle = FALSE
+  Pass2ClearsDeps = FALSE
 SPECIFICATION Spec
 CHECK_DEADLOCK FALSE
 INVARIANTS TypeOK CanonIffBisim PropagatedSound CanonShape NoAbort
